@@ -181,6 +181,8 @@ REAL_GRIDS = [
     ('gw', {'base': 'GLOBAL_WEBMERCATOR', 'num_levels': 4}, True, False),
     ('gq', {'base': 'GLOBAL_MERCATOR', 'res_factor': 'sqrt2', 'num_levels': 7}, True, True),
     ('gl', {'base': 'GLOBAL_MERCATOR', 'origin': 'nw', 'num_levels': 4, 'tile_size': [128, 128]}, True, False),
+    # sqrt2 pyramid numbered from the north-west: offered by WMTS (TileMatrix m = level m), TMS / KML see level 2m
+    ('gn', {'base': 'GLOBAL_MERCATOR', 'res_factor': 'sqrt2', 'origin': 'nw', 'num_levels': 8}, True, True),
 ]
 
 
@@ -385,8 +387,8 @@ def treq_term(li, q):
 def internal_level(li, svc, z):
     if svc == 'TMS' and li.skip_first:
         z += 1
-    if li.skip_odd:
-        z *= 2
+    if li.skip_odd and not svc.startswith('Wmts'):
+        z *= 2                  # WMTS (all_levels) addresses every level of a sqrt2 grid, the others every second
     return z
 
 
@@ -531,6 +533,11 @@ def gen_tile_requests(ctx, li, count):
         z = rng.choice(pub_levels + [rng.randrange(0, nlev)] * 12 + [nlev - 1, nlev - 1, 0, 10 ** 20, -10 ** 20])
         l = internal_level(li, svc, z) if z >= 0 else 0
         nx, ny = g.grid_sizes[l] if 0 <= l < nlev else g.grid_sizes[nlev - 1]
+        if li.skip_odd and 0 <= z and rng.random() < 0.3:
+            # bounds of the level the other numbering would pick (z vs 2z)
+            l2 = z if not svc.startswith('Wmts') else 2 * z
+            if 0 <= l2 < nlev:
+                nx, ny = g.grid_sizes[l2]
         x = boundary_values(rng, nx)
         y = boundary_values(rng, ny)
         r = rng.random()
@@ -853,7 +860,7 @@ def run(ctx):
             app = App(ctx, specs, maxpix)
             prepare(app, col, seq)
             for li in app.layers:
-                reqs = [('t', q) for q in gen_tile_requests(ctx, li, n_tile if li.exact else n_tile // 2)]
+                reqs = [('t', q) for q in gen_tile_requests(ctx, li, n_tile if (li.exact or li.skip_odd) else n_tile // 2)]
                 if li.exact:
                     reqs += [('m', m) for m in gen_map_requests(ctx, li, app, n_map)]
                 rng.shuffle(reqs)
